@@ -10,17 +10,20 @@ from gv.model import dbutil
 ID = "C16"
 RULE = (
     "Part 'merge' (shards = 11 criteria sets x blocks of multisets): every start-ordered multiset of <= 3 intervals over 6 positions "
-    "plus all 4-multisets over 4 positions (quick, 2738) / <= 4 intervals over 6 positions (thorough, 12649) x seqid/strand/type "
-    "pattern {uniform, last differs in strand, type, seqid} x object history {fresh, previously merged under 'exact', merged twice, "
-    "outputs re-merged, after children_bp calls}; criteria = default, 7 library sets, two custom predicates and the empty list, handed "
-    "over as list/tuple/iterator/generator in rotation. The real merge() output is compared with a reference run-builder: partition, "
-    "extents, fresh distinct ids, singletons, inputs unchanged, repeatability, default-criteria extents equal an independent interval "
-    "union, no exception; database unchanged on sampled executions. Part 'db': multisets of <= 3 members (quick: all) x {merge_all, "
-    "merge_all exclude_components, merge_all with end-threshold-2 and with exact criteria, children_bp, children_bp merge} x "
-    "ascending/descending file order on real file databases: result count, stored extents, components deleted or related, singletons "
-    "kept; children_bp value, keyword = positional call, database unchanged. Part 'scale' (2 executions): 1700 exons with one "
-    "1300-member run, merge_all with both exclude_components settings. Non-trivial = the reference partition has a multi-member run and "
-    "a run boundary, or objects are not fresh (merge); a multi-member run (db); every scale execution."
+    "plus all 4-multisets over 4 positions (quick, 2738) / <= 5 intervals over 6 positions (thorough, 65779) x seqid/strand/type "
+    "pattern {uniform, last differs in strand, type, seqid, a sequence name holding a comma (<= 2 members only)} x object history "
+    "{fresh, previously merged under 'exact', merged twice, outputs re-merged, after children_bp calls}; criteria = default, 7 library "
+    "sets, two custom predicates (one answering with non-bool values) and the empty list, handed over as list/tuple/iterator/generator "
+    "in rotation. The real merge() output is compared with a reference run-builder: partition, extents, fresh distinct ids, singletons, "
+    "inputs unchanged, repeatability, default-criteria extents equal an independent interval union, no exception; database unchanged on "
+    "sampled executions. Part 'db': multisets of <= 3 members (quick: all) x {merge_all, merge_all exclude_components, merge_all with "
+    "end-threshold-2 and with exact criteria, children_bp, children_bp merge} x ascending/descending file order on real file databases "
+    "whose exons are children of the transcript and, at two levels, of the gene: result count, stored extents, result visible through a "
+    "second connection, components deleted or related, singletons kept; children_bp value via transcript and via gene, keyword = "
+    "positional call, database unchanged. Part 'scale' (2 executions): 1700 exons with one 1300-member run, merge_all with both "
+    "exclude_components settings. Non-trivial = the reference partition has a multi-member run and a run boundary, or objects are not "
+    "fresh (merge); a multi-member run (db); every scale execution. children_bp without `merge` must equal merge=False (the documented "
+    "default)."
 )
 ASSUMPTIONS = [
     "criteria sets are such that an ambiguous accumulated field (seqid list, '.', 'sequence_feature') is never consulted",
@@ -305,6 +308,9 @@ def body_db(ch, ctx):
         merge = op.endswith("merge")
         got = db.children_bp("t1", child_featuretype="exon", merge=merge)
         positional = db.children_bp("t1", "exon", merge)            # the same call with positional arguments
+        if not merge:
+            dflt = db.children_bp("t1", child_featuretype="exon")          # the documented default is the plain sum
+            ctx.check(dflt == got, "children_bp-default-differs-from-merge-False", sig, default=dflt, explicit=got)
         ctx.check(positional == got, "children_bp-positional-call-differs", sig, keyword=got, positional=positional)
         exp = len({p for s, e in ms for p in range(s, e + 1)}) if merge else sum(e - s + 1 for s, e in ms)
         ctx.check(got == exp, "children_bp-differs", sig, intervals=list(ms), got=got, expected=exp)
